@@ -237,6 +237,12 @@ def model_leaf(w, view, rec, i, active=None, property_discount=True):
       # direction: use the implementation's stored sketch (sign/rotation of
       # eigenvectors is not unique); the sketch itself is checked separately
       base = ref.unpad_unmerge(ref.sketchy_direction(x, iaxes), lay)
+      # rounding sensitivity of the application: float32 vs float64 evaluation
+      with np.errstate(all='ignore'):
+        b32 = ref.unpad_unmerge(np.asarray(ref.sketchy_direction(
+            x, iaxes, dtype=np.float32), np.float64), lay)
+      out['base_sens'] = float(np.max(np.abs(b32 - base))) if base.size and \
+          np.all(np.isfinite(b32)) else float('inf')
       out['roots_norm'] = [max(float(np.max(np.abs(a['inv']))) if a['inv'].size
                                else 0.0, abs(a['inv_tail']), 1e-300)
                            for a in iaxes]
@@ -320,13 +326,17 @@ def refine(ctx, rec):
       # forward error of applying the roots: u * prod ||R|| * ||g|| * n
       base_err = 64.0 * u * cond_amp * np.sqrt(n_el) * gmax * (
           sum(lay['bdims']) + 4)
+      if 'base_sens' in m:
+        # measured float32-vs-float64 sensitivity of the sketch application
+        # (cancellation in g - V V^T g is amplified by inv_tail)
+        base_err = base_err + 16.0 * m['base_sens'] * np.sqrt(n_el)
       nb = float(np.linalg.norm(m['base']))
       ng = float(np.linalg.norm(m['gamma']))
       if cfg['graft']['grafting_type'] != 'none' and nb > 0:
         base_err = 2.0 * base_err * ng / nb
       if u == U32 and cfg['graft']['grafting_type'] != 'none' and \
-          0 < nb < 1e-15:
-        # float32 norm of the direction underflows in the implementation
+          (0 < nb < 1e-15 or nb * nb > 1e37):
+        # float32 norm of the direction under/overflows in the implementation
         ctx.ev('step_update', 'vacuous')
         ctx.ev('step_momentum', 'vacuous')
         continue
@@ -458,7 +468,7 @@ def graft(ctx, rec):
         ctx.violate('graft_norm', mk, 'nonzero_update_for_zero_direction',
                     tick=t, leaf=i)
       continue
-    if nb <= 10 * err or (u32 == U32 and nb < 1e-15):
+    if nb <= 10 * err or (u32 == U32 and (nb < 1e-15 or nb * nb > 1e37)):
       # (float32: squares of entries below 1e-19 are flushed to zero)
       ctx.ev('graft_norm', 'vacuous')
       ctx.ev('graft_dir', 'vacuous')
